@@ -493,10 +493,17 @@ def enum(ctx):
     # marker attributes: copyable => cloneable (C13-D3, C17-D3)
     okm = True
     homes = set()
+    decoded = False
     for nm in ('copyable', 'cloneable', 'defaultable'):
         hf, hv = state_home(f, ed[nm])
-        okm = okm and hv[0] == 'var'
+        if hv[0] != 'var' and nm != 'defaultable':
+            decoded = True      # decoded from other state: the finite-state check (copyable-implies-cloneable) decides it
+        else:
+            okm = okm and hv[0] == 'var'
         homes.add(hf.id)
+    if decoded:
+        hf_, _ = state_home(f, ed['defaultable'])
+        okm = okm and marker_state_machine(P, hf_, ed['copyable'], ed['cloneable'])[0]
     okm = okm and len(homes) == 1
     hf = P.fns[sorted(homes)[0]]
     strs = [op.get('str') for bi in hf.normal_blocks() for op in hf.block_operands(bi) if op.get('k') == 'Const' and 'str' in op]
@@ -516,6 +523,154 @@ def enum(ctx):
             copy_implies_clone(ctx, tdb, td, 'TDB')
 
 
+class _Undec(Exception):
+    pass
+
+
+def marker_state_machine(P, f, e_copy, e_clone):
+    """decide `copyable == (some attribute is copyable)` and `cloneable == (some attribute is copyable or cloneable)` when the
+    two are *decoded* from other state (e.g. a three-valued private enum): abstract interpretation of the attribute loop over the
+    finite values of the state locals, for the attribute kinds copyable / cloneable / anything else, then a search of all
+    reachable (state, set of attributes seen).  Returns (ok, detail); raises nothing (undecided -> (False, reason))."""
+    LITS = ('copyable', 'cloneable')
+
+    def enum_variants(ty):
+        a = P.adts.get(ty)
+        if a and a.get('kind') == 'Enum' and all(not v['fields'] for v in a['variants']):
+            return [v['name'] for v in a['variants']]
+        return None
+
+    def const_val(e, ty_hint=None):
+        e = strip(e)
+        if e[0] == 'int':
+            return bool(e[1]) if (len(e) > 2 and e[2] == 'bool') else e[1]
+        if e[0] == 'agg' and not e[2] and '::' in e[1]:
+            return e[1].split('::')[-1]
+        if e[0] == 'const':
+            m = re.search(r'::promoted\[(\d+)\]$', str(e[1]))
+            if m:
+                pr = [p_ for p_ in (f.raw.get('promoted') or []) if p_['i'] == int(m.group(1))]
+                tx = (pr[0].get('texts') or ['']) if pr else ['']
+                m2 = re.match(r'^Adt\(DefId\([^~]*~ \w+\[\w+\]::([\w:]+)\), (\d+), \[\]', tx[0])
+                if m2:
+                    vs = enum_variants(m2.group(1))
+                    if vs and int(m2.group(2)) < len(vs):
+                        return vs[int(m2.group(2))]
+        raise _Undec('not a constant: ' + show(e)[:50])
+    try:
+        # state locals: multi-definition locals of bool / fieldless-enum type that the two results are decoded from
+        S = []
+        for e in (e_copy, e_clone):
+            for x in walk(expand(f, e)):
+                if isinstance(x, tuple) and x and x[0] == 'var' and isinstance(x[1], int) and len(f.defs().get(x[1], [])) >= 2 and \
+                        (f.local_ty(x[1]) == 'bool' or enum_variants(f.local_ty(x[1]))) and x[1] not in S:
+                    S.append(x[1])
+        if not S:
+            return False, 'no finite state local found'
+        defblocks = {s_: [(d[0], const_val(f.expr_of_def(d))) for d in f.defs()[s_]] for s_ in S}
+        # the attribute loop: the innermost loop that contains the non-initial definitions
+        loops = [L for L in f.loops() if any(b in L[1] for s_ in S for b, v in defblocks[s_])]
+        if not loops:
+            return False, 'state is not updated in a loop'
+        L = min(loops, key=lambda L_: len(L_[1]))
+        h, body, latches = L
+        init = {}
+        for s_ in S:
+            outside = [v for b, v in defblocks[s_] if b not in body]
+            if len(outside) != 1:
+                return False, 'initial value of %s unclear' % f.names.get(s_)
+            init[s_] = outside[0]
+        start = [tgt for s2 in f.switches() if s2['block'] in body and s2['cond'][0] == 'discr' and is_call(strip(s2['cond'][1]), 'Iterator::next') for lab, tgt in s2['edges'] if lab == 'Some']
+        if len(start) != 1:
+            return False, 'loop element switch not found'
+        sw = {s2['block']: s2 for s2 in f.switches()}
+
+        def val(e, st):
+            e = strip(e)
+            if e[0] == 'var' and e[1] in st:
+                return st[e[1]]
+            if e[0] == 'un' and e[1] == 'Not':
+                return not val(e[2], st)
+            if e[0] == 'bin' and e[1] in ('Eq', 'Ne'):
+                a, b = val(e[2], st), val(e[3], st)
+                return (a == b) if e[1] == 'Eq' else (a != b)
+            if e[0] == 'call' and re.search(r'::(eq|ne)$', e[1]) and len(e[2]) == 2 and not any(isinstance(y, tuple) and y and y[0] == 'str' for y in e[2]):
+                a, b = val(e[2][0], st), val(e[2][1], st)
+                return (a == b) if e[1].endswith('eq') else (a != b)
+            if e[0] == 'discr':
+                return val(e[1], st)
+            return const_val(e)
+
+        def step(kind, st0):
+            """states at the end of one trip for an attribute of this kind (several when a test cannot be decided)"""
+            outs = []
+            work = [(start[0], dict(st0), 0)]
+            while work:
+                b, st, n = work.pop()
+                if n > 200:
+                    raise _Undec('trip too long')
+                if b == h or b in latches and False:
+                    outs.append(st)
+                    continue
+                if b not in body:
+                    continue        # the trip leaves the loop (an error): no state to carry on
+                for st_ in f.blocks[b]['stmts']:
+                    if st_['k'] == 'Assign' and not st_['place']['proj'] and st_['place']['local'] in S:
+                        st[st_['place']['local']] = const_val(f.expr_of_rvalue(st_['rv']))
+                s2 = sw.get(b)
+                if s2 is None:
+                    for y in f.succ(b):
+                        work.append((y, dict(st), n + 1))
+                    continue
+                c = s2['cond']
+                lt = _literal_test(P, c)
+                if lt:
+                    lit, want = lt
+                    v = (lit == kind) == want
+                    work.extend((t, dict(st), n + 1) for lab, t in s2['edges'] if lab is v)
+                    continue
+                try:
+                    v = val(expand(f, c), st)
+                    nxt = [t for lab, t in s2['edges'] if lab == v or lab is v or (isinstance(lab, str) and isinstance(v, str) and v in lab.split('|'))]
+                    if nxt:
+                        work.extend((t, dict(st), n + 1) for t in nxt[:1])
+                        continue
+                except _Undec:
+                    pass
+                # which kind of attribute it is: `copyable` / `cloneable` are bare identifiers
+                if c[0] == 'discr' and kind in LITS and any(isinstance(lab, str) and 'Ident' in lab.split('|') for lab, t in s2['edges']) and \
+                        any(isinstance(y, tuple) and y and y[0] == 'payload' and y[2] == 'Some' and is_call(strip(y[1]), 'Iterator::next') for y in walk(c[1])):
+                    work.extend((t, dict(st), n + 1) for lab, t in s2['edges'] if isinstance(lab, str) and 'Ident' in lab.split('|'))
+                    continue
+                # a test this analysis does not follow (an argument pattern, another attribute's name): every outcome
+                work.extend((t, dict(st), n + 1) for lab, t in s2['edges'])
+            return outs
+        seen = set()
+        frontier = [(tuple(sorted(init.items())), frozenset())]
+        bad = []
+        while frontier:
+            stt, H = frontier.pop()
+            if (stt, H) in seen:
+                continue
+            seen.add((stt, H))
+            st = dict(stt)
+            got = (val(expand(f, e_copy), st), val(expand(f, e_clone), st))
+            want = ('copyable' in H, 'copyable' in H or 'cloneable' in H)
+            if got != want:
+                bad.append((dict((f.names.get(k, k), v) for k, v in st.items()), sorted(H), got))
+            if len(seen) > 400:
+                return False, 'state space too large'
+            for kind in LITS + ('other',):
+                for st2 in step(kind, st):
+                    frontier.append((tuple(sorted(st2.items())), H | ({kind} if kind in LITS else set())))
+        return (not bad), 'finite-state check over %s: %d reachable (state, attributes seen) pairs%s' % (
+            [f.names.get(s_, s_) for s_ in S], len(seen), '' if not bad else '; wrong: %s' % bad[:2])
+    except _Undec as u:
+        return False, 'undecided: %s' % u
+    except Exception as ex:
+        return False, 'undecided (%s)' % ex
+
+
 def copy_implies_clone(ctx, f, d, tag):
     """wherever the `copyable` flag is set to true, `cloneable` is set to true on the same path"""
     (f1, cp), (f2, cl) = state_home(f, d['copyable']), state_home(f, d['cloneable'])
@@ -525,7 +680,11 @@ def copy_implies_clone(ctx, f, d, tag):
         sets_cp = [(bi) for (bi, si, kind, payload, span) in f.defs()[cp[1]] if f.expr_of_def((bi, si, kind, payload, span)) == ('int', 1, 'bool')]
         sets_cl = [(bi) for (bi, si, kind, payload, span) in f.defs()[cl[1]] if f.expr_of_def((bi, si, kind, payload, span)) == ('int', 1, 'bool')]
         ok = bool(sets_cp) and all(any(b == c or (f.dominates(b, c) and f.postdominates(c, b)) or (f.dominates(c, b) and f.postdominates(b, c)) for c in sets_cl) for b in sets_cp)
-    ctx.ob(['C13', 'C17'], 'R-PAIR', '%s|copyable-implies-cloneable' % tag, ok, 'whenever copyable is set, cloneable is set on the same path (Copy requires Clone)', loc(f.span))
+    det = ''
+    if not ok and not (cp[0] == 'var' and cl[0] == 'var'):
+        # the two flags are decoded from other state (a private enum with three values, ..): decide by exploring that state
+        ok, det = marker_state_machine(ctx.prog, f1 if f1 is f2 else f, d['copyable'], d['cloneable'])
+    ctx.ob(['C13', 'C17'], 'R-PAIR', '%s|copyable-implies-cloneable' % tag, ok, 'whenever copyable is set, cloneable is set on the same path (Copy requires Clone) %s' % det, loc(f.span))
 
 
 # ------------------------------------------------------------------------------------------------
@@ -812,9 +971,17 @@ def attribute_table(ctx):
         if ed:
             # the variant marker: only `default` marks the default variant
             check('enum-variant', ['C08'], f, {'default_index': var_of(ed.get('default_index', ('none',)))}, {'default': {'default_index'}})
+            f0 = f
             f, roles = rehome(f, {k: ed[k] for k in ('copyable', 'cloneable', 'defaultable', 'singleton')})
-            check('enum', ['C17', 'C08', 'C15'], f, roles,
-                  {'singleton': {'singleton'}, 'copyable': {'copyable', 'cloneable'}, 'cloneable': {'cloneable'}, 'defaultable': {'defaultable'}})
+            expect = {'singleton': {'singleton'}, 'copyable': {'copyable', 'cloneable'}, 'cloneable': {'cloneable'}, 'defaultable': {'defaultable'}}
+            if roles.get('copyable') is None and roles.get('cloneable') is None:
+                # the two flags are decoded from other state: decided by exploring that state (marker_state_machine)
+                hf_, _ = state_home(f0, ed['defaultable'])
+                okm_, detm_ = marker_state_machine(P, hf_, ed['copyable'], ed['cloneable'])
+                if okm_:
+                    f, roles = rehome(f0, {k: ed[k] for k in ('defaultable', 'singleton')})
+                    expect = {'singleton': {'singleton'}, 'defaultable': {'defaultable'}, 'copyable': set(), 'cloneable': set()}
+            check('enum', ['C17', 'C08', 'C15'], f, roles, expect)
     am = [f for f in P.fns.values() if f.id.endswith('SemanticState::add_module')]
     if am:
         f = am[0]
@@ -845,9 +1012,9 @@ def attribute_table(ctx):
 ATTR_LITERALS = {
     # builder -> attribute name -> type fragments of the named locals it sets (one entry per place the name is recognised)
     'function': ('semantic::function::build', {'address': [['FunctionBody']], 'index': [[]], 'calling_convention': [['CallingConvention']]}, ['C05', 'C04', 'C16']),
-    'type': ('semantic::type_definition::build', {'size': [['usize'], ['usize']], 'singleton': [['usize']], 'align': [['usize']], 'copyable': [['bool']], 'cloneable': [['bool']],
+    'type': ('semantic::type_definition::build', {'size': [['usize'], ['usize']], 'singleton': [['usize']], 'align': [['usize']], 'copyable': [[]], 'cloneable': [[]],
                                                  'defaultable': [['bool']], 'packed': [['bool']], 'base': [['bool']], 'address': [['usize']], '_': [[]]}, ['C01', 'C02', 'C03', 'C06', 'C07', 'C15', 'C17']),
-    'enum': (None, {'default': [['usize']], 'copyable': [['bool']], 'cloneable': [['bool']], 'defaultable': [['bool']], 'singleton': [['usize']]}, ['C08', 'C15', 'C17']),
+    'enum': (None, {'default': [['usize']], 'copyable': [[]], 'cloneable': [[]], 'defaultable': [['bool']], 'singleton': [['usize']]}, ['C08', 'C15', 'C17']),
     'module': ('semantic::semantic_state::SemanticState::add_module', {'address': [['usize']], 'size': [['usize']], 'align': [['usize']]}, ['C15', 'C02']),
     'vftable': ('semantic::type_definition::vftable::convert_grammar_functions_to_semantic_functions', {'index': [['usize']]}, ['C04', 'C06']),
     'doc': ('grammar::Attributes::doc', {'doc': [[]]}, ['C17']),
